@@ -38,6 +38,7 @@ fn weight_vectors() -> Vec<(&'static str, Vec<(u8, u64)>)> {
         ("w123", vec![(0, 1), (1, 2), (2, 3)]),
         ("w13", vec![(0, 1), (1, 3)]),
         ("w001", vec![(0, 0), (1, 0), (2, 1)]),
+        ("w00", vec![(0, 0), (1, 0)]),
     ]
 }
 
